@@ -823,12 +823,21 @@ def _superset_copies(fn: ast.AST, params: set[str]) -> dict[str, tuple[str, int]
     """V -> (X, position of V's binding) for locals `V = set(X)` / `X.copy()` / `list(X)` (a *copy* of the node set X, bound once by a
     top-level statement) that afterwards only grow (`V.add(..)`, `V.update(..)`, `V |= ..`) while X is not changed any more:
     V >= X holds wherever V is read."""
-    single = _single_assignments(fn)
     mut = _mutation_positions(fn)
     pos = mut["@pos"]
     out: dict[str, tuple[str, int]] = {}
-    for v_name, val in single.items():
-        if v_name in params:
+    # bound once by a plain assignment (a growing `V |= ..` is not a rebinding)
+    stores: dict[str, int] = {}
+    vals: dict[str, ast.expr] = {}
+    for n in ast.walk(fn):
+        if isinstance(n, ast.Name) and isinstance(n.ctx, (ast.Store, ast.Del)) and not isinstance(parent(n), ast.AugAssign):
+            stores[n.id] = stores.get(n.id, 0) + 1
+        if isinstance(n, ast.Assign) and len(n.targets) == 1 and isinstance(n.targets[0], ast.Name):
+            vals[n.targets[0].id] = n.value
+        elif isinstance(n, ast.AnnAssign) and isinstance(n.target, ast.Name) and n.value is not None:
+            vals[n.target.id] = n.value
+    for v_name, val in vals.items():
+        if v_name in params or stores.get(v_name) != 1:
             continue
         x = strip(val)
         if not (isinstance(x, ast.Name) and x is not val and x.id != v_name):
@@ -1275,6 +1284,9 @@ def _iter_elements(e: ast.expr, single: dict[str, ast.expr]) -> list[tuple[ast.A
         return [(c.elt, c)]
     if isinstance(e, ast.BinOp) and isinstance(e.op, (ast.Add, ast.BitOr)):
         return _iter_elements(e.left, single) + _iter_elements(e.right, single)
+    if isinstance(e, ast.IfExp):
+        # either branch (the guards of the elements carry the test)
+        return _iter_elements(e.body, single) + _iter_elements(e.orelse, single)
     return [(e, None)]
 
 
@@ -1918,8 +1930,14 @@ def build(repo: Repo, fi: FuncInfo) -> SearchModel | None:
             recv, removed = n.target.id, [n.value]
         elif isinstance(n, ast.Call) and isinstance(n.func, ast.Attribute) and n.func.attr == "difference_update" and isinstance(n.func.value, ast.Name) and n.args and not n.keywords:
             recv, removed = n.func.value.id, list(n.args)
+        elif isinstance(n, (ast.Assign, ast.AnnAssign)) and n.value is not None and isinstance(n.targets[0] if isinstance(n, ast.Assign) and len(n.targets) == 1 else getattr(n, "target", None), ast.Name):
+            # `S = S - {..}` / `S = get_all_submodules_of(..) - {..}` / `S = S.difference(..)`
+            removed = _subtrahends(n.value)
+            recv = (n.targets[0] if isinstance(n, ast.Assign) else n.target).id if removed else None
         if recv is not None and (recv in model.submodule_sets or recv in model.accumulated_sets):
             for r_ in removed:
+                if _is_empty_collection(r_):
+                    continue
                 r_ids = _parent_ids(r_, v.param_names, single)
                 if r_ids is not None:
                     # the parent-module identifiers of a literal sequence of filter parameters
@@ -1927,6 +1945,8 @@ def build(repo: Repo, fi: FuncInfo) -> SearchModel | None:
                         model.set_ops.append(SetOp("remove", recv, f"{p_}.{NODE_ATTR}", n, f_and([model.guard_of(n), atom(f"bool({p_}.{PARENT_FLAG})")])))
                     continue
                 for elt, comp in _iter_elements(r_, single):
+                    if _is_empty_collection(elt):
+                        continue
                     cs_ = all_conds(v, elt) + ([] if any(a is n for a in ancestors(elt)) else all_conds(v, n))
                     model.set_ops.append(SetOp("remove", recv, _node_expr_text(elt, single), n, conds_formula(cs_, model.subst)))
 
@@ -2041,6 +2061,16 @@ def _node_maps(m: SearchModel) -> dict[str, NodeMap]:
                 out.pop(name, None)
                 break
     return out
+
+
+def _subtrahends(value: ast.AST) -> list[ast.AST]:
+    """[E..] for `X - E`, `X.difference(E, ..)`, also nested (`X - E1 - E2`) and wrapped (`set(X - E)`)."""
+    v = strip(value)
+    if isinstance(v, ast.BinOp) and isinstance(v.op, ast.Sub):
+        return _subtrahends(v.left) + [v.right]
+    if isinstance(v, ast.Call) and isinstance(v.func, ast.Attribute) and v.func.attr == "difference" and v.args and not v.keywords:
+        return _subtrahends(v.func.value) + list(v.args)
+    return []
 
 
 def _is_empty_collection(e: ast.AST) -> bool:
